@@ -7,20 +7,41 @@
 set -u
 export GOFLAGS=-mod=mod GOPROXY=off GOSUMDB=off GOTOOLCHAIN=local
 export VERIF_DIR="$(cd "$(dirname "$0")/.." && pwd)"
+REPO="${VERIF_REPO:-/repo}"
 cd "$VERIF_DIR" || exit 2
 mkdir -p .build evidence replays
-BIN=".build/check.$$"
-trap 'rm -f "$BIN"' EXIT
+BIN="$VERIF_DIR/.build/check.$$"
+trap 'rm -f "$BIN" "$VERIF_DIR/.build/build.$$.log"' EXIT
+
+overlay() {
+  # Map iteration order is owned through a build overlay generated from the
+  # working tree (DESIGN.md 2.5); cached by the hash of the package sources.
+  [ -x .build/mapshim ] || go build -o .build/mapshim ./shim/mapshim 2>/dev/null || return 1
+  local h
+  h=$(cat "$REPO"/ddsketch/store/*.go shim/mapshim/main.go 2>/dev/null | sha256sum | cut -c1-24) || return 1
+  OV="$VERIF_DIR/.build/ov-$h"
+  if [ ! -f "$OV/report.json" ]; then
+    rm -rf "$OV"
+    .build/mapshim "$REPO" "$OV" > "$OV.log" 2>&1 || { rm -rf "$OV"; return 1; }
+    # keep the cache small
+    ls -dt .build/ov-*/ 2>/dev/null | tail -n +12 | xargs -r rm -rf
+  fi
+  grep -q '"map_order_controlled": true' "$OV/report.json" || return 1
+  return 0
+}
+
 build() {
   # the harness module replaces github.com/DataDog/sketches-go by /repo, so
   # this always compiles the repository's current working tree
+  if overlay && go build -tags verif -overlay "$OV/overlay.json" -o "$BIN" ./cmd/check 2> .build/build.$$.log; then
+    return 0
+  fi
+  echo "WARNING: map iteration order is not controlled in this run (overlay unavailable); running natively" >&2
   if ! go build -o "$BIN" ./cmd/check 2> .build/build.$$.log; then
     cat .build/build.$$.log >&2
-    rm -f .build/build.$$.log
-    echo "BUILD-FAILED: the harness does not compile against /repo's working tree" >&2
+    echo "BUILD-FAILED: the harness does not compile against the repository's working tree" >&2
     return 1
   fi
-  rm -f .build/build.$$.log
 }
 case "${1:-}" in
   --build) build || exit 2; exit 0 ;;
